@@ -12,6 +12,7 @@ package main
 // (hash of the loaded Spec), the kind of return (ok / error / crashed at hook) — no error texts.
 
 import (
+	"bufio"
 	"bytes"
 	"crypto/sha256"
 	"encoding/hex"
@@ -23,6 +24,7 @@ import (
 	"os/signal"
 	"path/filepath"
 	"regexp"
+	"runtime"
 	"sort"
 	"strconv"
 	"strings"
@@ -31,6 +33,7 @@ import (
 	"syscall"
 	"time"
 
+	"golang.org/x/sys/unix"
 	"tags.cncf.io/container-device-interface/pkg/cdi"
 	specs "tags.cncf.io/container-device-interface/specs-go"
 	"verif/harness/hx"
@@ -47,6 +50,10 @@ const (
 )
 
 var c10Hooks = []string{"mkdir", "created", "written", "closed", "renamed", "none"}
+
+// number of devices of the big Spec (about 20 KiB in either encoding: several pages, beyond the default buffers of bufio;
+// the evaluation of the model on much longer byte strings overflows the stack of coqc)
+const c10BigNdev = 300
 
 // c10Spec builds a valid Spec whose content depends on tag and whose size grows with ndev.
 func c10Spec(tag string, ndev int) *specs.Spec {
@@ -69,39 +76,113 @@ func c10BytesHash(b []byte) string {
 }
 
 // ---------------------------------------------------------------------------------------------
-// child: vharness c10-write -dir D -name N -tag T -ndev K [-limit L]
-// exit status: 0 WriteSpec returned nil, 1 it returned an error, 3 it panicked, 77 crashed at a hook.
+// child: vharness c10-write -dir D -name N [-drop] -script "tag:ndev:limit:hook;..."
+// ONE Cache object performs the steps of the script one after the other.  After every step but the last the child prints the
+// step's status on stdout and waits for a line on stdin (the parent looks at the directory meanwhile); the status of the last
+// step is the exit status: 0 WriteSpec returned nil, 1 it returned an error, 3 it panicked, 77 crashed at a hook.
+type c10Step struct {
+	Tag   string
+	Ndev  int
+	Limit int64 // RLIMIT_FSIZE (soft limit) during the step, -1: none
+	Hook  int   // index into c10Hooks, 5: none
+}
+
+func c10Script(steps []c10Step) string {
+	parts := make([]string, len(steps))
+	for i, st := range steps {
+		parts[i] = fmt.Sprintf("%s:%d:%d:%d", st.Tag, st.Ndev, st.Limit, st.Hook)
+	}
+	return strings.Join(parts, ";")
+}
+
+// c10DropCaps makes the calling thread an ordinary owner: root without CAP_DAC_OVERRIDE, CAP_DAC_READ_SEARCH and CAP_FOWNER
+// obeys permission bits and sticky directories.  The goroutine stays on its thread.
+func c10DropCaps() error {
+	runtime.LockOSThread()
+	hdr := unix.CapUserHeader{Version: unix.LINUX_CAPABILITY_VERSION_3}
+	var data [2]unix.CapUserData
+	if err := unix.Capget(&hdr, &data[0]); err != nil {
+		return err
+	}
+	for _, c := range []uint{unix.CAP_DAC_OVERRIDE, unix.CAP_DAC_READ_SEARCH, unix.CAP_FOWNER} {
+		data[c/32].Effective &^= 1 << (c % 32)
+	}
+	return unix.Capset(&hdr, &data[0])
+}
+
 func c10WriteChild(args []string) int {
 	fs := flag.NewFlagSet("c10-write", flag.ExitOnError)
 	dir := fs.String("dir", "", "Spec directory")
 	name := fs.String("name", "", "Spec name")
-	tag := fs.String("tag", "new", "content tag")
-	ndev := fs.Int("ndev", 2, "number of devices")
-	limit := fs.Int64("limit", -1, "RLIMIT_FSIZE during the write (-1: none)")
+	script := fs.String("script", "new:2:-1:5", "steps tag:ndev:limit:hook separated by ;")
+	drop := fs.Bool("drop", false, "give up the capabilities which let root ignore permission bits")
 	_ = fs.Parse(args)
+	var steps []c10Step
+	for _, part := range strings.Split(*script, ";") {
+		f := strings.Split(part, ":")
+		if len(f) != 4 {
+			return 6
+		}
+		nd, e1 := strconv.Atoi(f[1])
+		lim, e2 := strconv.ParseInt(f[2], 10, 64)
+		hk, e3 := strconv.Atoi(f[3])
+		if e1 != nil || e2 != nil || e3 != nil {
+			return 6
+		}
+		steps = append(steps, c10Step{f[0], nd, lim, hk})
+	}
 	cache, err := cdi.NewCache(cdi.WithSpecDirs(*dir), cdi.WithAutoRefresh(false))
 	if err != nil {
 		return 4
 	}
-	spec := c10Spec(*tag, *ndev)
-	if *limit >= 0 {
-		signal.Ignore(syscall.SIGXFSZ)
-		lim := syscall.Rlimit{Cur: uint64(*limit), Max: uint64(*limit)}
-		if err := syscall.Setrlimit(syscall.RLIMIT_FSIZE, &lim); err != nil {
-			return 5
+	signal.Ignore(syscall.SIGXFSZ)
+	var unlimited syscall.Rlimit
+	if err := syscall.Getrlimit(syscall.RLIMIT_FSIZE, &unlimited); err != nil {
+		return 5
+	}
+	if *drop {
+		if err := c10DropCaps(); err != nil {
+			return 7
 		}
 	}
-	var werr error
-	_, _ = os.Stat(c10Begin)
-	panicked, _ := hx.Guard(func() { werr = cache.WriteSpec(spec, *name) })
-	_, _ = os.Stat(c10End)
-	switch {
-	case panicked:
-		return 3
-	case werr != nil:
-		return 1
+	in := bufio.NewReader(os.Stdin)
+	status := 0
+	for i, st := range steps {
+		spec := c10Spec(st.Tag, st.Ndev)
+		if st.Limit >= 0 {
+			lim := syscall.Rlimit{Cur: uint64(st.Limit), Max: unlimited.Max}
+			if err := syscall.Setrlimit(syscall.RLIMIT_FSIZE, &lim); err != nil {
+				return 5
+			}
+		}
+		if st.Hook >= 0 && st.Hook < 5 {
+			_ = os.Setenv("VERIF_CRASH_AT", "write:"+c10Hooks[st.Hook])
+		} else {
+			_ = os.Unsetenv("VERIF_CRASH_AT")
+		}
+		var werr error
+		_, _ = os.Stat(c10Begin)
+		panicked, _ := hx.Guard(func() { werr = cache.WriteSpec(spec, *name) })
+		_, _ = os.Stat(c10End)
+		if st.Limit >= 0 {
+			_ = syscall.Setrlimit(syscall.RLIMIT_FSIZE, &unlimited)
+		}
+		switch {
+		case panicked:
+			status = 3
+		case werr != nil:
+			status = 1
+		default:
+			status = 0
+		}
+		if i < len(steps)-1 {
+			fmt.Printf("%d\n", status)
+			if _, err := in.ReadString('\n'); err != nil {
+				return 8
+			}
+		}
 	}
-	return 0
+	return status
 }
 
 // ---------------------------------------------------------------------------------------------
@@ -269,8 +350,10 @@ type c10Trace struct {
 }
 
 // c10ParseTrace projects the system calls between the two markers which concern directory dir.
-func c10ParseTrace(text string, dir string) c10Trace {
-	var tr c10Trace
+// One c10Trace per marker window (one per step of the child's script), in order; a window the child died in has one marker.
+func c10ParseTrace(text string, dir string) []c10Trace {
+	var out []c10Trace
+	tr := &c10Trace{}
 	dir = filepath.Clean(dir)
 	pending := map[string]string{}
 	dirfds := map[string]bool{} // descriptors open on dir
@@ -334,12 +417,18 @@ func c10ParseTrace(text string, dir string) c10Trace {
 			}
 			switch str(pi) {
 			case c10Begin:
+				// a new window: descriptors are numbered from 0 again
+				tr = &c10Trace{Markers: 1}
+				filefds = map[string]int{}
+				nextfd, mkdirSeen = 0, false
 				inWindow = true
-				tr.Markers++
 				continue
 			case c10End:
-				inWindow = false
-				tr.Markers++
+				if inWindow {
+					inWindow = false
+					tr.Markers++
+					out = append(out, *tr)
+				}
 				continue
 			}
 		}
@@ -511,13 +600,18 @@ func c10ParseTrace(text string, dir string) c10Trace {
 			}
 		}
 	}
-	for _, o := range tr.Ops {
-		tr.Raw = append(tr.Raw, o.Desc)
+	if inWindow {
+		out = append(out, *tr)
 	}
-	if tr.Markers != 2 && tr.Problem == "" {
-		tr.Problem = fmt.Sprintf("expected 2 markers in the trace, saw %d", tr.Markers)
+	for i := range out {
+		for _, o := range out[i].Ops {
+			out[i].Raw = append(out[i].Raw, o.Desc)
+		}
+		if out[i].Markers != 2 && out[i].Problem == "" {
+			out[i].Problem = fmt.Sprintf("expected 2 markers in the trace window, saw %d", out[i].Markers)
+		}
 	}
-	return tr
+	return out
 }
 
 const c10TraceSet = "trace=mkdir,mkdirat,open,openat,creat,write,pwrite64,writev,pwritev,pwritev2,close,dup,dup2,dup3,rename,renameat,renameat2," +
@@ -534,6 +628,7 @@ type c10Run struct {
 	Limit  int64 // -1: none
 	Hook   int   // index into c10Hooks; 5 = none
 	Strace bool
+	Drop   bool // the child gives up the capabilities which let root ignore permission bits and sticky directories
 }
 
 type c10Result struct {
@@ -548,14 +643,29 @@ type c10Result struct {
 var c10Children int
 
 func c10Exec(self string, scratch string, run c10Run) c10Result {
-	var res c10Result
+	return c10Session(self, scratch, run.Dir, run.Name, []c10Step{{run.Tag, run.Ndev, run.Limit, run.Hook}}, run.Strace, run.Drop)[0]
+}
+
+// c10Session lets child processes perform the steps on directory dir, every child with ONE Cache object for all the steps it
+// gets to: a child which dies at a hook is followed by a new one for the remaining steps.  One result per step; the parent looks
+// at the directory between the steps while the child waits.
+func c10Session(self, scratch, dir, name string, steps []c10Step, strace, drop bool) []c10Result {
+	results := make([]c10Result, len(steps))
+	for i := 0; i < len(steps); {
+		i += c10Child(self, scratch, dir, name, steps[i:], strace, drop, results[i:])
+	}
+	return results
+}
+
+func c10Child(self, scratch, dir, name string, steps []c10Step, strace, drop bool, res []c10Result) int {
 	c10Children++
-	res.L0, res.Dir0 = c10Listing(run.Dir)
-	res.S0 = c10Scan(run.Dir)
-	args := []string{"c10-write", "-dir", run.Dir, "-name", run.Name, "-tag", run.Tag, "-ndev", strconv.Itoa(run.Ndev), "-limit", strconv.FormatInt(run.Limit, 10)}
+	args := []string{"c10-write", "-dir", dir, "-name", name, "-script", c10Script(steps)}
+	if drop {
+		args = append(args, "-drop")
+	}
 	var cmd *exec.Cmd
 	tracefile := filepath.Join(scratch, "trace.txt")
-	if run.Strace {
+	if strace {
 		_ = os.Remove(tracefile)
 		sargs := append([]string{"-f", "-qq", "-xx", "-s", "1000000", "-o", tracefile, "-e", c10TraceSet, self}, args...)
 		cmd = exec.Command("strace", sargs...)
@@ -563,35 +673,86 @@ func c10Exec(self string, scratch string, run c10Run) c10Result {
 		cmd = exec.Command(self, args...)
 	}
 	cmd.Env = append(os.Environ(), "VERIF_CRASH_AT=", "VERIF_PAUSE_AT=")
-	if run.Hook >= 0 && run.Hook < 5 {
-		cmd.Env = append(cmd.Env, "VERIF_CRASH_AT=write:"+c10Hooks[run.Hook])
-	}
 	var stderr bytes.Buffer
 	cmd.Stderr = &stderr
-	err := cmd.Run()
-	res.Ret = 0
-	if err != nil {
-		if ee, ok := err.(*exec.ExitError); ok {
-			res.Ret = ee.ExitCode()
-		} else {
-			res.Ret = 99
-			res.Err = err.Error()
+	stdin, e1 := cmd.StdinPipe()
+	stdout, e2 := cmd.StdoutPipe()
+	res[0].L0, res[0].Dir0 = c10Listing(dir)
+	res[0].S0 = c10Scan(dir)
+	fail := func(msg string) int {
+		for k := range res {
+			res[k].Ret, res[k].Err = 99, msg
 		}
+		return len(res)
 	}
-	if res.Ret != 0 && res.Ret != 1 && res.Ret != 77 {
-		res.Err += " child: " + strings.TrimSpace(stderr.String())
+	if e1 != nil || e2 != nil {
+		return fail("cannot set up the pipes to the child")
 	}
-	if run.Strace {
+	if err := cmd.Start(); err != nil {
+		return fail(err.Error())
+	}
+	watchdog := time.AfterFunc(120*time.Second, func() { _ = cmd.Process.Kill() })
+	defer watchdog.Stop()
+	rd := bufio.NewReader(stdout)
+	done := 0
+	for k := range steps {
+		line, err := rd.ReadString('\n')
+		if err != nil {
+			// the child has ended: its exit status is the status of this step
+			res[k].Ret = 0
+			if werr := cmd.Wait(); werr != nil {
+				if ee, ok := werr.(*exec.ExitError); ok {
+					res[k].Ret = ee.ExitCode()
+				} else {
+					res[k].Ret = 99
+					res[k].Err = werr.Error()
+				}
+			}
+			if res[k].Ret != 0 && res[k].Ret != 1 && res[k].Ret != 77 {
+				res[k].Err += " child: " + strings.TrimSpace(stderr.String())
+			}
+			res[k].L1, _ = c10Listing(dir)
+			res[k].S1 = c10Scan(dir)
+			done = k + 1
+			break
+		}
+		code, cerr := strconv.Atoi(strings.TrimSpace(line))
+		if cerr != nil {
+			code = 98
+			res[k].Err = "unexpected line from the child: " + strings.TrimSpace(line)
+		}
+		res[k].Ret = code
+		var dirOK bool
+		res[k].L1, dirOK = c10Listing(dir)
+		res[k].S1 = c10Scan(dir)
+		if k+1 < len(steps) {
+			res[k+1].L0, res[k+1].Dir0, res[k+1].S0 = res[k].L1, dirOK, res[k].S1
+		}
+		_, _ = stdin.Write([]byte("\n"))
+	}
+	if done == 0 { // cannot happen: the last step ends with the child
+		_ = cmd.Process.Kill()
+		_ = cmd.Wait()
+		return fail("the child outlived its script")
+	}
+	if strace {
 		data, rerr := os.ReadFile(tracefile)
-		if rerr != nil {
-			res.Trace.Problem = "no trace file"
-		} else {
-			res.Trace = c10ParseTrace(string(data), run.Dir)
+		var windows []c10Trace
+		if rerr == nil {
+			windows = c10ParseTrace(string(data), dir)
+		}
+		for k := 0; k < done; k++ {
+			switch {
+			case rerr != nil:
+				res[k].Trace.Problem = "no trace file"
+			case k >= len(windows):
+				res[k].Trace.Problem = fmt.Sprintf("the trace has %d windows, step %d has none", len(windows), k)
+			default:
+				res[k].Trace = windows[k]
+			}
 		}
 	}
-	res.L1, _ = c10Listing(run.Dir)
-	res.S1 = c10Scan(run.Dir)
-	return res
+	return done
 }
 
 // c10Complete returns the bytes an undisturbed WriteSpec produces for (name, tag, ndev): the complete new content.
@@ -635,6 +796,10 @@ type c10Fix struct {
 	StaleTmp  bool // leftovers of earlier interrupted writes
 	DirTarget bool // a directory sits where the target should go (makes the rename fail)
 	PrevLink  bool // the previous version is reached through a symbolic link under the Spec name (the data lives elsewhere)
+	// for writers which obey permissions (c10Run.Drop):
+	ReadOnlyDir bool // the directory gives nobody write permission: no file can be created in it, the files in it can still be written
+	Sticky      bool // a sticky directory of another user; the previous version belongs to a third user and is writable by everybody:
+	// a temporary file can be created, the rename over the previous version is refused, writing into it would be allowed
 }
 
 func c10Prepare(dir, name string, fx c10Fix) error {
@@ -673,6 +838,28 @@ func c10Prepare(dir, name string, fx c10Fix) error {
 			if err := os.Symlink(store, target); err != nil {
 				return err
 			}
+		}
+	}
+	if fx.Sticky {
+		if err := os.Chown(dir, 1, 1); err != nil {
+			return err
+		}
+		if err := os.Chmod(dir, 0o777|os.ModeSticky); err != nil {
+			return err
+		}
+		if fx.Prev {
+			target := filepath.Join(dir, c10TargetOf(name))
+			if err := os.Chown(target, 2, 2); err != nil {
+				return err
+			}
+			if err := os.Chmod(target, 0o666); err != nil {
+				return err
+			}
+		}
+	}
+	if fx.ReadOnlyDir {
+		if err := os.Chmod(dir, 0o555); err != nil {
+			return err
 		}
 	}
 	return nil
@@ -757,14 +944,26 @@ func c10Concurrent(scratch string, idx int, name string, prev bool, writers int,
 	var stop int32
 	var wg sync.WaitGroup
 	var nwrites, nreads, nscans, werrs int64
+	var sharedCache *cdi.Cache
+	if idx%2 == 1 {
+		var err error
+		if sharedCache, err = cdi.NewCache(cdi.WithSpecDirs(dir), cdi.WithAutoRefresh(false)); err != nil {
+			return hx.Case{}, err
+		}
+	}
 	for w := 0; w < writers; w++ {
 		wg.Add(1)
 		go func(w int) {
 			defer wg.Done()
-			cache, err := cdi.NewCache(cdi.WithSpecDirs(dir), cdi.WithAutoRefresh(false))
-			if err != nil {
-				atomic.AddInt64(&werrs, 1)
-				return
+			// odd rounds: the writers share one Cache object
+			cache := sharedCache
+			if cache == nil {
+				var err error
+				cache, err = cdi.NewCache(cdi.WithSpecDirs(dir), cdi.WithAutoRefresh(false))
+				if err != nil {
+					atomic.AddInt64(&werrs, 1)
+					return
+				}
 			}
 			for i := w; atomic.LoadInt32(&stop) == 0; i++ {
 				s := specA
@@ -862,7 +1061,7 @@ func c10Concurrent(scratch string, idx int, name string, prev bool, writers int,
 		hx.LS(finalSpecNames), hx.B(werrs == 0))
 	return hx.Case{
 		Term: term,
-		Desc: map[string]interface{}{"kind": "concurrent readers vs writers", "target": target, "previous_file": prev, "writers": writers,
+		Desc: map[string]interface{}{"kind": "concurrent readers vs writers", "target": target, "previous_file": prev, "writers": writers, "writers_share_one_cache": sharedCache != nil,
 			"writes": nwrites, "file_reads": nreads, "scans": nscans, "write_errors": werrs,
 			"allowed_file_hashes(A,B)": allowedBytes, "allowed_spec_hashes(A,B)": allowedSpec,
 			"seen_file_hashes": keys(seenBytes), "seen_ReadSpec": keys(seenSpec), "seen_scan": scanDesc, "final_spec_names": finalSpecNames},
@@ -912,6 +1111,9 @@ func genC10(r *hx.R, tier string, scratch string) (*hx.Suite, error) {
 			"atomic-publication predicate is evaluated on EVERY prefix of the OBSERVED sequence; (ii) crash at every verifPoint(write:<step>) hook, the parent " +
 			"lists the directory and scans it with scanSpecDirs/ReadSpec: equals the model state at that prefix, old-or-new, nothing else loadable; (iii) write failure " +
 			"at byte offsets via RLIMIT_FSIZE (SIGXFSZ ignored), each followed by an undisturbed write of a shorter Spec under the same name; rename failure (directory at the target); " +
+			"a writer without CAP_DAC_OVERRIDE / CAP_FOWNER in a directory where no file can be created (alone, with a size limit, with every crash request) and in a sticky directory " +
+			"where the rename over somebody else's previous version is refused while that file itself is writable; a Spec of several pages (strace, failure beyond 16 KiB, crash); " +
+			"half of the failed writes and all the steps of the random histories are followed by the next write of the SAME process on the SAME Cache object (a crashed writer by a new process); " +
 			"(iv) ReadFile/ReadSpec/scanSpecDirs readers against two writers alternating two contents; plus the scanner's name filter vs is_spec_name on 29 names",
 	}
 	self, err := os.Executable()
@@ -933,7 +1135,24 @@ func genC10(r *hx.R, tier string, scratch string) (*hx.Suite, error) {
 		idx++
 		return filepath.Join(scratch, fmt.Sprintf("d%d", idx), "cdi")
 	}
-	// one write attempt -> one case
+	// one observed write attempt -> one case
+	record := func(kind string, run c10Run, fx c10Fix, res c10Result, newData []byte, mk func(res c10Result, wobs string, newData []byte) string) error {
+		if run.Strace && res.Trace.Problem != "" {
+			return fmt.Errorf("strace: %s", res.Trace.Problem)
+		}
+		if res.Ret != 0 && res.Ret != 1 && res.Ret != 77 {
+			return fmt.Errorf("child failed unexpectedly (status %d): %s", res.Ret, res.Err)
+		}
+		desc := c10Desc(kind, run, fx, res, len(newData))
+		s.Add(hx.Case{
+			Term:       mk(res, c10Wobs(run, res, newData), newData),
+			Desc:       desc,
+			Key:        fmt.Sprintf("%s|%s|%+v|%d|%d|%s|%d|%d", kind, run.Name, fx, run.Limit, run.Hook, run.Tag, run.Ndev, len(s.Cases)),
+			Nontrivial: true,
+			Class:      kind,
+		})
+		return nil
+	}
 	attempt := func(kind string, run c10Run, fx c10Fix, prepare bool, mk func(res c10Result, wobs string, newData []byte) string) (c10Result, error) {
 		run.Target = c10TargetOf(run.Name)
 		if prepare {
@@ -953,21 +1172,7 @@ func genC10(r *hx.R, tier string, scratch string) (*hx.Suite, error) {
 			}
 			res = c10Exec(self, scratch, run)
 		}
-		if run.Strace && res.Trace.Problem != "" {
-			return res, fmt.Errorf("strace: %s", res.Trace.Problem)
-		}
-		if res.Ret != 0 && res.Ret != 1 && res.Ret != 77 {
-			return res, fmt.Errorf("child failed unexpectedly (status %d): %s", res.Ret, res.Err)
-		}
-		desc := c10Desc(kind, run, fx, res, len(newData))
-		s.Add(hx.Case{
-			Term:       mk(res, c10Wobs(run, res, newData), newData),
-			Desc:       desc,
-			Key:        fmt.Sprintf("%s|%s|%+v|%d|%d|%s|%d", kind, run.Name, fx, run.Limit, run.Hook, run.Tag, run.Ndev),
-			Nontrivial: true,
-			Class:      kind,
-		})
-		return res, nil
+		return res, record(kind, run, fx, res, newData, mk)
 	}
 	opsTerm := func(tr c10Trace) string {
 		items := make([]string, len(tr.Ops))
@@ -976,30 +1181,60 @@ func genC10(r *hx.R, tier string, scratch string) (*hx.Suite, error) {
 		}
 		return hx.L(items)
 	}
-	mkTrace := func(limit int64, rfail bool) func(c10Result, string, []byte) string {
+	// inj: the failure the fixture arranges - InjNone, InjRename (the rename is refused), InjCreate (no file can be created)
+	mkTrace := func(limit int64, inj string) func(c10Result, string, []byte) string {
 		return func(res c10Result, wobs string, _ []byte) string {
-			return hx.C("CTrace", wobs, hx.S(res.Trace.Rnd), c10OptN(limit), hx.B(rfail), opsTerm(res.Trace))
+			return hx.C("CTrace", wobs, hx.S(res.Trace.Rnd), c10OptN(limit), inj, opsTerm(res.Trace))
 		}
 	}
-	mkCrash := func(hook int, rfail bool) func(c10Result, string, []byte) string {
+	mkCrash := func(hook int, inj string) func(c10Result, string, []byte) string {
 		return func(res c10Result, wobs string, _ []byte) string {
-			return hx.C("CCrash", wobs, hx.S(c10RndOf(res)), hx.B(rfail), hx.Nat(hook))
+			return hx.C("CCrash", wobs, hx.S(c10RndOf(res)), inj, hx.Nat(hook))
 		}
 	}
-	mkLimit := func(limit int64) func(c10Result, string, []byte) string {
+	mkLimit := func(limit int64, inj string) func(c10Result, string, []byte) string {
 		return func(res c10Result, wobs string, _ []byte) string {
-			return hx.C("CLimit", wobs, hx.S(c10RndOf(res)), c10OptN(limit))
+			return hx.C("CLimit", wobs, hx.S(c10RndOf(res)), c10OptN(limit), inj)
 		}
 	}
 	// the follow-up: an undisturbed write of a SHORTER Spec under the same name into the directory as it was left
 	followUp := func(kind string, run c10Run, strace bool) error {
 		run2 := run
 		run2.Tag, run2.Ndev, run2.Limit, run2.Hook, run2.Strace = "after", 1, -1, 5, strace
-		mk := mkLimit(-1)
+		mk := mkLimit(-1, "InjNone")
 		if strace {
-			mk = mkTrace(-1, false)
+			mk = mkTrace(-1, "InjNone")
 		}
 		_, err := attempt(kind, run2, c10Fix{}, false, mk)
+		return err
+	}
+
+	// ---- a Spec of several pages: undisturbed under strace / write failure beyond 16 KiB and the next write / crash after the write.
+	// The model is slow on long byte strings, so the three parts are spread over the stream (different shards).
+	bigName := names[r.Intn(2)]
+	big := func(part int) error {
+		run := c10Run{Dir: newDir(), Name: bigName, Tag: "big", Ndev: c10BigNdev, Limit: -1, Hook: 5}
+		newData, err := c10Complete(scratch, bigName, run.Tag, run.Ndev)
+		if err != nil {
+			return err
+		}
+		if len(newData) <= 17000 {
+			return fmt.Errorf("the big Spec has only %d bytes", len(newData))
+		}
+		switch part {
+		case 0:
+			run.Strace = true
+			_, err = attempt("strace-big", run, c10Fix{Prev: true, PrevNdev: 2}, true, mkTrace(-1, "InjNone"))
+		case 1:
+			off := int64(16384 + r.Intn(len(newData)-16384))
+			run.Limit = off
+			if _, err = attempt("write-failure-big", run, c10Fix{Prev: true, PrevNdev: c10BigNdev - 100}, true, mkLimit(off, "InjNone")); err == nil {
+				err = followUp("write-after-failed-write", run, false)
+			}
+		default:
+			run.Hook = 2 + r.Intn(3)
+			_, err = attempt("crash-big", run, c10Fix{Prev: true, PrevNdev: 3}, true, mkCrash(run.Hook, "InjNone"))
+		}
 		return err
 	}
 
@@ -1007,10 +1242,13 @@ func genC10(r *hx.R, tier string, scratch string) (*hx.Suite, error) {
 	for _, name := range names {
 		for _, fx := range []c10Fix{{}, {Prev: true, PrevNdev: 2}, {Missing: true}, {Prev: true, PrevNdev: 5, StaleTmp: true}, {Prev: true, PrevNdev: 2, PrevLink: true}} {
 			run := c10Run{Dir: newDir(), Name: name, Tag: "new", Ndev: 1 + r.Intn(4), Limit: -1, Hook: 5, Strace: true}
-			if _, err := attempt("strace", run, fx, true, mkTrace(-1, false)); err != nil {
+			if _, err := attempt("strace", run, fx, true, mkTrace(-1, "InjNone")); err != nil {
 				return nil, err
 			}
 		}
+	}
+	if err := big(0); err != nil {
+		return nil, err
 	}
 	// ---- (i)+(iii) strace with a write failure, then the follow-up write under strace
 	for _, name := range names[:2] {
@@ -1027,7 +1265,7 @@ func genC10(r *hx.R, tier string, scratch string) (*hx.Suite, error) {
 			for _, off := range offs {
 				run.Dir, run.Limit = newDir(), off
 				fx := c10Fix{Prev: prev, PrevNdev: 2, StaleTmp: r.Chance(0.3), PrevLink: prev && r.Chance(0.4)}
-				if _, err := attempt("strace-write-failure", run, fx, true, mkTrace(off, false)); err != nil {
+				if _, err := attempt("strace-write-failure", run, fx, true, mkTrace(off, "InjNone")); err != nil {
 					return nil, err
 				}
 				if err := followUp("strace-write-after-failed-write", run, true); err != nil {
@@ -1039,12 +1277,12 @@ func genC10(r *hx.R, tier string, scratch string) (*hx.Suite, error) {
 	// ---- rename failure: a directory sits at the target
 	for _, name := range names[:2] {
 		run := c10Run{Dir: newDir(), Name: name, Tag: "new", Ndev: 2, Limit: -1, Hook: 5, Strace: true}
-		if _, err := attempt("strace-rename-failure", run, c10Fix{DirTarget: true}, true, mkTrace(-1, true)); err != nil {
+		if _, err := attempt("strace-rename-failure", run, c10Fix{DirTarget: true}, true, mkTrace(-1, "InjRename")); err != nil {
 			return nil, err
 		}
 		for _, hook := range []int{3, 4} {
 			run.Dir, run.Strace, run.Hook = newDir(), false, hook
-			if _, err := attempt("crash-rename-failure", run, c10Fix{DirTarget: true}, true, mkCrash(hook, true)); err != nil {
+			if _, err := attempt("crash-rename-failure", run, c10Fix{DirTarget: true}, true, mkCrash(hook, "InjRename")); err != nil {
 				return nil, err
 			}
 		}
@@ -1060,7 +1298,7 @@ func genC10(r *hx.R, tier string, scratch string) (*hx.Suite, error) {
 		for _, fx := range fixes {
 			for hook := 0; hook <= 5; hook++ {
 				run := c10Run{Dir: newDir(), Name: name, Tag: "new", Ndev: 1 + r.Intn(4), Limit: -1, Hook: hook}
-				if _, err := attempt("crash", run, fx, true, mkCrash(hook, false)); err != nil {
+				if _, err := attempt("crash", run, fx, true, mkCrash(hook, "InjNone")); err != nil {
 					return nil, err
 				}
 				if hook < 4 && (thorough || r.Chance(0.25)) {
@@ -1071,6 +1309,9 @@ func genC10(r *hx.R, tier string, scratch string) (*hx.Suite, error) {
 				}
 			}
 		}
+	}
+	if err := big(1); err != nil {
+		return nil, err
 	}
 	// ---- (iii) write failure at byte offsets, each followed by an undisturbed shorter write
 	for _, name := range names[:2] {
@@ -1094,7 +1335,28 @@ func genC10(r *hx.R, tier string, scratch string) (*hx.Suite, error) {
 			for _, off := range offs {
 				run := c10Run{Dir: newDir(), Name: name, Tag: "new", Ndev: ndev, Limit: off, Hook: 5}
 				fx := c10Fix{Prev: prev, PrevNdev: 1 + r.Intn(3), PrevLink: prev && r.Chance(0.4)}
-				if _, err := attempt("write-failure", run, fx, true, mkLimit(off)); err != nil {
+				if r.Chance(0.5) {
+					// the failed write and the next, undisturbed and shorter one by the same process on the same Cache object
+					run.Target = c10TargetOf(name)
+					if err := c10Prepare(run.Dir, name, fx); err != nil {
+						return nil, err
+					}
+					two := c10Session(self, scratch, run.Dir, name, []c10Step{{"new", ndev, off, 5}, {"after", 1, -1, 5}}, false, false)
+					if err := record("write-failure", run, fx, two[0], newData, mkLimit(off, "InjNone")); err != nil {
+						return nil, err
+					}
+					run2 := run
+					run2.Tag, run2.Ndev, run2.Limit = "after", 1, -1
+					afterData, err := c10Complete(scratch, name, "after", 1)
+					if err != nil {
+						return nil, err
+					}
+					if err := record("write-after-failed-write-same-cache", run2, fx, two[1], afterData, mkLimit(-1, "InjNone")); err != nil {
+						return nil, err
+					}
+					continue
+				}
+				if _, err := attempt("write-failure", run, fx, true, mkLimit(off, "InjNone")); err != nil {
 					return nil, err
 				}
 				if thorough && off%3 != 0 {
@@ -1106,7 +1368,51 @@ func genC10(r *hx.R, tier string, scratch string) (*hx.Suite, error) {
 			}
 		}
 	}
-	// ---- random histories in one directory: undisturbed writes, crashes and write failures of Specs of varying size follow one another
+	if err := big(2); err != nil {
+		return nil, err
+	}
+	// ---- the writer obeys permission bits (root without CAP_DAC_OVERRIDE / CAP_FOWNER): no file can be created in the directory,
+	// while the previous version itself could be written; alone, together with a file size limit, and with every crash request
+	for _, name := range names[:2] {
+		fx := c10Fix{Prev: true, PrevNdev: 2, ReadOnlyDir: true}
+		run := c10Run{Dir: newDir(), Name: name, Tag: "new", Ndev: 3, Limit: -1, Hook: 5, Strace: true, Drop: true}
+		if _, err := attempt("strace-create-failure", run, fx, true, mkTrace(-1, "InjCreate")); err != nil {
+			return nil, err
+		}
+		newData, err := c10Complete(scratch, name, run.Tag, run.Ndev)
+		if err != nil {
+			return nil, err
+		}
+		for _, off := range []int64{0, int64(1 + r.Intn(len(newData)-1))} {
+			run.Dir, run.Strace, run.Limit = newDir(), false, off
+			if _, err := attempt("create-failure", run, fx, true, mkLimit(off, "InjCreate")); err != nil {
+				return nil, err
+			}
+		}
+		for _, hook := range []int{0, 1 + r.Intn(4), 5} {
+			run.Dir, run.Strace, run.Limit, run.Hook = newDir(), false, -1, hook
+			if _, err := attempt("crash-create-failure", run, fx, true, mkCrash(hook, "InjCreate")); err != nil {
+				return nil, err
+			}
+		}
+	}
+	// ---- ... the rename over the previous version is refused (sticky directory, the previous version is somebody else's)
+	// although a temporary file can be created and the previous version itself could be written
+	for _, name := range names[:2] {
+		fx := c10Fix{Prev: true, PrevNdev: 2, Sticky: true}
+		run := c10Run{Dir: newDir(), Name: name, Tag: "new", Ndev: 3, Limit: -1, Hook: 5, Strace: true, Drop: true}
+		if _, err := attempt("strace-rename-refused", run, fx, true, mkTrace(-1, "InjRename")); err != nil {
+			return nil, err
+		}
+		for _, hook := range []int{3, 4, 5} {
+			run.Dir, run.Strace, run.Hook = newDir(), false, hook
+			if _, err := attempt("crash-rename-refused", run, fx, true, mkCrash(hook, "InjRename")); err != nil {
+				return nil, err
+			}
+		}
+	}
+	// ---- random histories in one directory: undisturbed writes, crashes and write failures of Specs of varying size follow one
+	// another; all the steps up to a crash are performed by ONE process on ONE Cache object (a crashed writer is followed by a new one)
 	nh, steps := 4, 8
 	if thorough {
 		nh, steps = 16, 14
@@ -1119,27 +1425,41 @@ func genC10(r *hx.R, tier string, scratch string) (*hx.Suite, error) {
 		if err := c10Prepare(dir, name, fx); err != nil {
 			return nil, err
 		}
+		traced := h%2 == 0
+		var hsteps []c10Step
 		for st := 0; st < steps; st++ {
-			run := c10Run{Dir: dir, Name: name, Tag: fmt.Sprintf("h%d-%d", h, st), Ndev: 1 + r.Intn(6), Limit: -1, Hook: 5}
-			var err error
+			stp := c10Step{Tag: fmt.Sprintf("h%d-%d", h, st), Ndev: 1 + r.Intn(6), Limit: -1, Hook: 5}
 			switch r.Intn(4) {
-			case 0:
-				run.Strace = true
-				_, err = attempt("history-strace", run, fx, false, mkTrace(-1, false))
 			case 1:
-				run.Hook = r.Intn(5)
-				_, err = attempt("history-crash", run, fx, false, mkCrash(run.Hook, false))
+				stp.Hook = r.Intn(5)
 			case 2:
-				newData, cerr := c10Complete(scratch, name, run.Tag, run.Ndev)
+				newData, cerr := c10Complete(scratch, name, stp.Tag, stp.Ndev)
 				if cerr != nil {
 					return nil, cerr
 				}
-				run.Limit = int64(r.Intn(len(newData) + 1))
-				_, err = attempt("history-write-failure", run, fx, false, mkLimit(run.Limit))
-			default:
-				_, err = attempt("history-write", run, fx, false, mkLimit(-1))
+				stp.Limit = int64(r.Intn(len(newData) + 1))
 			}
-			if err != nil {
+			hsteps = append(hsteps, stp)
+		}
+		results := c10Session(self, scratch, dir, name, hsteps, traced, false)
+		for k, stp := range hsteps {
+			run := c10Run{Dir: dir, Name: name, Target: c10TargetOf(name), Tag: stp.Tag, Ndev: stp.Ndev, Limit: stp.Limit, Hook: stp.Hook}
+			newData, cerr := c10Complete(scratch, name, stp.Tag, stp.Ndev)
+			if cerr != nil {
+				return nil, cerr
+			}
+			res := results[k]
+			kind, mk := "history-write", mkLimit(stp.Limit, "InjNone")
+			switch {
+			case stp.Hook < 5:
+				kind, mk = "history-crash", mkCrash(stp.Hook, "InjNone")
+			case traced && res.Trace.Problem == "":
+				run.Strace = true
+				kind, mk = "history-strace", mkTrace(stp.Limit, "InjNone")
+			case stp.Limit >= 0:
+				kind = "history-write-failure"
+			}
+			if err := record(kind, run, fx, res, newData, mk); err != nil {
 				return nil, err
 			}
 		}
